@@ -242,7 +242,11 @@ pub fn run_imp(xml: &str, names: &[String]) -> Vec<String> {
     out
 }
 
-const PIN_NAMES: &[&str] = &["A", "B", "C", "CLK", "D", "S", "Q", "Y", "C_out", "S_out", "BUS", "ALU-~RESET", "é", "Q2"];
+// some labels are deliberately the words the file format itself uses as attribute keys and element names
+const PIN_NAMES: &[&str] = &[
+    "A", "B", "C", "CLK", "D", "S", "Q", "Y", "C_out", "S_out", "BUS", "ALU-~RESET", "é", "Q2", "Bits", "Label", "InDefault",
+    "Testdata", "In", "Out", "string", "D_out",
+];
 
 pub fn gen_circuit(r: &mut Prng) -> Circuit {
     let n = r.below(6) + 1;
@@ -339,7 +343,7 @@ pub fn gen_circuit(r: &mut Prng) -> Circuit {
             0 => None,
             1 => Some(String::new()),
             2 => Some("same".to_string()),
-            3 => Some("a<b&c".to_string()),
+            3 => Some((*r.pick(&["a<b&c", "Testdata", "Label", "dataString"])).to_string()),
             _ => Some(format!("test {k}")),
         };
         tests.push(DTest { label, source: src });
